@@ -48,7 +48,7 @@ def main(argv):
         if hasattr(mod, "teardown"):
             mod.teardown(ctx)
     tmp = out + ".tmp"
-    with open(tmp, "w", encoding="utf8") as f:
+    with open(tmp, "w", encoding="utf8", errors="backslashreplace") as f:
         json.dump(ctx.result(), f, ensure_ascii=False)
     os.replace(tmp, out)
     return 0
